@@ -51,7 +51,10 @@ CHECKS = {
              "unleased, sufficiently confirmed, mature outputs) and UnspentOutputs is a permutation of spec_utxos (amount, block, coinbase flag). Proved by "
              "the refinement invariant Inv (Tx/Inv.v) preserved by every event - Seen, Confirm (incl. double-spend removal), Disconnect (rollback incl. the "
              "amt=0 branch and coinbase descendants), Abandon, lease events - about 7000 lines of Coq, unbounded in history length and graph shape; plus "
-             "C01_model_total_on_consistent_histories (the fuelled recursion never runs out). Tie to the code: node-simulator histories on the real "
+             "C01_model_total_on_consistent_histories (the fuelled recursion never runs out); and C01_validating_node_histories_are_consistent - every event sequence "
+             "an abstract validating node with its wallet-notification channel (Tx/Node.v: mempool with replacement, blocks with coinbase/announced/never-announced "
+             "members, reorgs of any depth, missed/late/repeated/stale notifications, wallet-initiated abandon and re-delivery) can emit satisfies chain_consistent, "
+             "so the hypothesis is not an artefact of the generator. Tie to the code: node-simulator histories on the real "
              "wtxmgr over bbolt, compared after every event with the model AND with the ledger spec for 24 (minconf, sync) pairs, spendable set, watch set, "
              "unmined set, lease list.",
         note="Model coq/Tx/Store.v transcribes wtxmgr bucket for bucket (10 buckets, InsertTx/AddCredit/Rollback/removeConflict/Balance/fetchCredits/leases/TxDetails/RangeTransactions); hypotheses: wf_universe (ids, positive amounts, duplicate-free inputs, inputs name existing outputs, acyclic by rank) and chain_consistent (decidable, Tx/Hist.v: what a validating node can emit - re-deliveries and unconfirmed conflicts allowed). Trusted: Coq kernel+vm_compute, the hand-written model (tied by the differential run after EVERY event), generator, bbolt. Integer wrap-around outside the model (amounts < 2^53, heights < 2^20 generated). Late discovery of credits not generated. No axioms (Print Assumptions closed)."),
